@@ -542,6 +542,33 @@ impl Ctx {
             }
             let (dts, res) = tables(&texts, &[]);
             (l(vec![a(0), req.nth(1).clone(), dts, res]), outs, ok && printed.is_some())
+        } else if kind == 2 {
+            // deep nesting: run in a child process, a stack overflow aborts the process
+            let n = req.nth(1).int() as usize;
+            let s = deep_text(n, req.nth(2).int());
+            let work = std::env::var("VERIF_WORK").unwrap_or_else(|_| "/verif/.cache/work".to_string());
+            let _ = std::fs::create_dir_all(&work);
+            let base = format!("{}/C09.deep.{}.{}", work, std::process::id(), n);
+            let reqf = format!("{}.req", base);
+            let casef = format!("{}.cases", base);
+            let statf = format!("{}.stats", base);
+            std::fs::write(&reqf, format!("{}\n", req_text(&s))).expect("write child request");
+            let status = std::process::Command::new(std::env::current_exe().expect("current exe"))
+                .args(["replay", &reqf, &casef, &statf])
+                .stderr(std::process::Stdio::null())
+                .status();
+            let obs = match status {
+                Ok(st) if st.success() => std::fs::read_to_string(&casef)
+                    .ok()
+                    .and_then(|t| t.lines().next().and_then(|ln| ln.split('\t').nth(1).and_then(crate::sx::parse)))
+                    .map(|o| o.nth(0).clone())
+                    .unwrap_or_else(|| l(vec![a(-4)])),
+                _ => l(vec![a(-2)]),
+            };
+            for f in [&reqf, &casef, &statf] {
+                let _ = std::fs::remove_file(f);
+            }
+            (req.clone(), vec![obs], true)
         } else {
             let tree = req.nth(1);
             let mut printed: Option<String> = None;
@@ -844,6 +871,14 @@ fn query_text(rng: &mut Rng, wild: bool) -> String {
     }
 }
 
+/// n nested unions (mode 0) or n nested sub-queries (mode 1), left open
+fn deep_text(n: usize, mode: i64) -> String {
+    if mode == 0 {
+        format!("SELECT ANNOTATION WHERE {}", "[ ".repeat(n))
+    } else {
+        format!("SELECT ANNOTATION ?a WHERE ID \"x\"; {}", "{ SELECT ANNOTATION ?a WHERE ID \"x\"; ".repeat(n))
+    }
+}
 fn req_text(s: &str) -> Sx {
     l(vec![a(0), text(s)])
 }
@@ -1138,6 +1173,11 @@ pub fn generate(out: &mut Out, tier: &str, seed: u64) {
             }
         }
         emit(out, req_text(&s), "random_string");
+    }
+
+    // deep nesting in a child process (a stack overflow cannot be caught)
+    for (n, mode) in [(40, 0), (40, 1), (20000, 0), (20000, 1)] {
+        emit(out, l(vec![a(2), a(n), a(mode)]), "deep_nesting_child_process");
     }
 
     // 5. queries built through the public API
